@@ -32,10 +32,10 @@ ASSUMPTIONS = [
 def main(tier):
     c = sup.Check('C07', tier, 'fault_enumeration')
     quick = tier == 'quick'
-    c.set_deadline(int(os.environ.get('C07_DEADLINE', 150 if quick else 1700)))
+    c.set_deadline(int(os.environ.get("C07_DEADLINE", 170 if quick else 1700)))
     c.build('asan', ['c07'])
     c.build('plain', ['c07'])
-    env = {'VERIF_TIER': tier}
+    env = {'VERIF_TIER': tier, 'VERIF_SCRATCH': c.scratch}  # per-worker directories <scratch>/<pid>/ disappear with the check's own scratch directory
     kw = dict(env=env, per_case_timeout=5)
     def run(fl, fam, **k2):
         t = time.time()
@@ -51,7 +51,7 @@ def main(tier):
         run('asan', 'graphs-g2', **small)
         run('asan', 'faults-g2', **small)
         run('asan', 'repairs-g2', **small)
-        for fam in ('graphs-g3', 'graphs-h2', 'graphs-u3', 'faults-g3', 'faults-h2', 'repairs-g3'):
+        for fam in ('graphs-g3', 'graphs-h2', 'graphs-u3', 'graphs-e3', 'faults-g3', 'faults-h2', 'faults-u3', 'faults-e3', 'repairs-g3'):
             run('plain', fam)
     else:
         run('asan', 'selftest')
@@ -59,7 +59,7 @@ def main(tier):
             run('asan', fam, **small)
         for fam in ('graphs-g3', 'faults-g3', 'repairs-g3'):
             run('asan', fam)
-        for fam in ('graphs-h2', 'graphs-u3', 'graphs-d3', 'faults-h2', 'faults-u3', 'faults-d3', 'repairs-h2', 'repairs-u3', 'graphs-g4', 'faults-g4', 'graphs-k3', 'faults-k3'):
+        for fam in ('graphs-h2', 'graphs-u3', 'graphs-d3', 'graphs-e3', 'faults-h2', 'faults-u3', 'faults-d3', 'faults-e3', 'repairs-h2', 'repairs-u3', 'repairs-d3', 'graphs-g4', 'faults-g4', 'graphs-k3', 'faults-k3'):
             run('plain', fam)
     return c.finish(rule=RULE, assumptions=ASSUMPTIONS,
                     extra_cov={'fault_scenarios': c.counters.get('fault_scenarios', 0), 'repair_sequences': c.counters.get('repair_sequences', 0)})
